@@ -125,7 +125,10 @@ void run_case(const char* id, char op, char order, const std::vector<uint8_t>& i
 {
     exact_block blk(in.size(), false);
     if (!in.empty()) memcpy(blk.p, in.data(), in.size());
-    T x;
+    // op 'R': decode into an object that still holds what the previous 'R' case of this type left in it
+    static T keep;
+    T local;
+    T& x = op == 'R' ? keep : local;
     g_alloc_sum = 0;
     g_alloc_budget = 64 * in.size() + 65536;
     g_counting = true;
